@@ -581,7 +581,7 @@ Definition S_all (f : nat) : Prop :=
   (forall w st kids F h, good F h -> In (idx w) F -> dok F (key_kids fixed f w st kids h)) /\
   (forall w t i u F h, good F h -> parent_framed F h w -> dok F (handle_mouse fixed f w t i u h)) /\
   (forall w kids t i u F h, good F h -> In (idx w) F -> dok F (mouse_kids fixed f w kids t i u h)) /\
-  (forall t F h, good F h -> findw h root <> None -> t <> MDrag -> dok F (on_term_mouse fixed f t h)).
+  (forall t F h, good F h -> findw h root <> None -> dok F (on_term_mouse fixed f t h)).
 
 Lemma text_run_op : forall f o, text (run_op fixed f o).
 Proof. intros. apply (text_all f). Qed.
@@ -647,17 +647,11 @@ Proof.
   - (* OMouse *)
     unfold bind at 1. cbn [log_op].
     set (h1 := mkHeap (wins h) (reqs h) (rx h) (nextw h) (nextq h) (dlog h) (uninit_seen h) (OMouse t :: tr h)).
-    assert (T : text (b <- root_bound ;; if b then on_term_mouse fixed f t else ret tt)).
-    { apply text_bind; [apply ktr_text, ktr_root_bound|]. intros []; [auto|apply text_ret]. }
-    destruct (mtype_eq_drag t) as [->|Hnd].
-    + (* a drag event: outside the discipline *)
-      apply dok_ill; [exact T|]. destruct G as (g & Hg & _). unfold ill.
-      rewrite (echeck_logged h h1 (OMouse MDrag) g Hg eq_refl). reflexivity.
-    + assert (G1 : good F h1) by (apply good_logged; [exact G|intro g; destruct t; congruence || reflexivity]).
-      unfold bind at 1. unfold root_bound at 1. destruct (PM.mem 1%positive (wins h1)) eqn:Em; [|apply dok_ret; exact G1].
-      assert (Hl : findw h1 root <> None).
-      { unfold findw. apply PM.mem_2 in Em. destruct Em as [c Hc]. apply PM.find_1 in Hc. unfold root. congruence. }
-      apply S9; assumption.
+    assert (G1 : good F h1) by (apply good_logged; [exact G|intro g; reflexivity]).
+    unfold bind at 1. unfold root_bound at 1. destruct (PM.mem 1%positive (wins h1)) eqn:Em; [|apply dok_ret; exact G1].
+    assert (Hl : findw h1 root <> None).
+    { unfold findw. apply PM.mem_2 in Em. destruct Em as [c Hc]. apply PM.find_1 in Hc. unfold root. congruence. }
+    apply S9; assumption.
   - cbn. right. exact G.
   - cbn. right. exact G.
 Qed.
@@ -818,10 +812,283 @@ Qed.
 Lemma text_frame_run : forall f o, text (frame_run f o).
 Proof. intros f o. destruct o; cbn [frame_run]; text_auto. Qed.
 
-Lemma step_otm : forall f, S_all f -> forall t F h, good F h -> findw h root <> None -> t <> MDrag ->
+(* ---- the drag source ---- *)
+(* a change of the root-only fields that keeps the queue; the new drag source is attached to the root *)
+Lemma hinv_with_rx : forall D h r, hinv D h -> r_queue r = r_queue (rx h) ->
+  (exists od, r_drag r = Some od /\ forall d, od = Some d -> ~ In root D -> findw h root <> None -> anc h d root) ->
+  hinv D (with_rx h r).
+Proof.
+  intros D h r HI Hq Hdr. set (h' := with_rx h r).
+  assert (Hw : wins h' = wins h) by reflexivity.
+  destruct HI as [K P PL O F R C I RP Q QK Dg NW NWR NQ].
+  constructor.
+  - intros a c Hf. destruct (K a c Hf) as [l [Hc Hl]]. exists l. split; [eapply chain_same_wins; eauto|exact Hl].
+  - exact P.
+  - exact PL.
+  - exact O.
+  - exact F.
+  - exact R.
+  - exact C.
+  - exact I.
+  - exact RP.
+  - destruct Q as [ql [Hq1 [Hq2 Hq3]]]. exists ql. split; [|split].
+    + change (r_queue (rx h')) with (r_queue r). rewrite Hq. eapply qchain_same; [exact Hq1|]. intros; reflexivity.
+    + exact Hq2.
+    + intros q cq Hfq. destruct (Hq3 q cq Hfq) as [x [p [cx [H1 [H2 [H3 [H4 H5]]]]]]].
+      exists x, p, cx. repeat split; auto. eapply anc_same_wins; eauto.
+  - exact QK.
+  - destruct Hdr as [od [E Hd]]. exists od. split; [exact E|]. intros d Ed Hn Hl. eapply anc_same_wins; eauto.
+  - exact NW.
+  - exact NWR.
+  - exact NQ.
+Qed.
+
+Lemma good_rx_drag : forall F h r, good F h -> r_queue r = r_queue (rx h) ->
+  (exists od, r_drag r = Some od /\ forall d, od = Some d -> anc h d root) -> good F (with_rx h r).
+Proof.
+  intros F h r (g & Hg & HI & AG & Hfr & HF) Hq (od & Ed & Hd). exists g. split; [exact Hg|].
+  split; [apply hinv_with_rx; [exact HI|exact Hq|]; exists od; split; [exact Ed|]; intros d E _ _; apply Hd; exact E|].
+  split; [|split; assumption]. destruct AG as [L C]. constructor; [exact L|]. intros i gw Hn. exact (C i gw Hn).
+Qed.
+
+Lemma good_drag_source : forall F h d, good F h -> r_drag (rx h) = Some (Some d) -> findw h root <> None -> anc h d root.
+Proof.
+  intros F h d (g & _ & HI & _) Hd Hl. destruct (hi_drag [] h HI) as [od [E Ha]]. rewrite E in Hd. inversion Hd; subst od.
+  apply Ha; auto.
+Qed.
+
+(* _is_in_tree: the walk over the tree below [t] *)
+Lemma in_tree_both : forall fuel h, hinv [] h ->
+  (forall t w, findw h t <> None ->
+     match in_tree fuel t w h with Ok b h' => h' = h /\ (b = true -> anc h w t) | Fault _ _ => False | NoFuel => True end) /\
+  (forall k w l p, chain h k l -> (forall a, In a l -> exists ca, findw h a = Some ca /\ w_parent ca = Some p) ->
+     match in_tree_kids fuel k w h with Ok b h' => h' = h /\ (b = true -> anc h w p) | Fault _ _ => False | NoFuel => True end).
+Proof.
+  induction fuel as [|f IH]; intros h HI; [split; intros; exact I|]. destruct (IH h HI) as [IH1 IH2]. split.
+  - intros t w Hl. cbn [in_tree]. destruct (live_some h t Hl) as [c Hc].
+    destruct (Pos.eqb_spec t w) as [->|Hne]; [cbn; split; [reflexivity|]; intros _; eapply anc_refl; eauto|].
+    unfold bind at 1. rewrite (getw_run h t c Hc). destruct (hi_kids [] h HI t c Hc) as (l & Hch & Hl').
+    apply (IH2 (w_first c) w l t Hch). intros a Ha. apply Hl'. exact Ha.
+  - intros k w l p Hch Hpar. cbn [in_tree_kids]. destruct Hch as [|a c l Hf Hch]; [cbn; split; [reflexivity|discriminate]|].
+    destruct (Hpar a (or_introl eq_refl)) as (ca & Hfa & Hpa). rewrite Hf in Hfa. inversion Hfa; subst ca.
+    unfold bind at 1. assert (Hla : findw h a <> None) by congruence. specialize (IH1 a w Hla).
+    destruct (in_tree f a w h) as [b h'| |]; [|contradiction|exact I]. destruct IH1 as [-> Hb]. destruct b.
+    + cbn. split; [reflexivity|]. intros _. eapply anc_trans; [apply Hb; reflexivity|].
+      eapply anc_step; [exact Hf|exact Hpa|].
+      destruct (live_some h p (hi_parent [] h HI a c p Hf Hpa)) as [cp Hp]. eapply anc_refl; eauto.
+    + unfold bind at 1. rewrite (getw_run h a c Hf). apply (IH2 (w_next c) w l p Hch). intros x Hx. apply Hpar. right. exact Hx.
+Qed.
+
+Lemma count_up_spec : forall fuel h w, hinv [] h -> (forall a, w = Some a -> findw h a <> None) ->
+  match count_up fuel w h with Ok _ h' => h' = h | Fault _ _ => False | NoFuel => True end.
+Proof.
+  induction fuel as [|f IH]; intros h w HI Hl; [exact I|]. cbn [count_up]. destruct w as [a|]; [|reflexivity].
+  destruct (live_some h a (Hl a eq_refl)) as [c Hc]. unfold bind. rewrite (getw_run h a c Hc).
+  apply IH; [exact HI|]. intros p Hp. destruct (hinv_parent_live [] h a c p HI Hc Hp) as [cp Hcp]. congruence.
+Qed.
+
+(* ---- _handle_mouse_at: the ancestors of the window are held for the call ---- *)
+(* the way up from a window *)
+Inductive up_path (h : heap) : ptr -> list positive -> Prop :=
+| up_nil : up_path h None []
+| up_cons : forall a c l, findw h a = Some c -> up_path h (w_parent c) l -> up_path h (Some a) (a :: l).
+
+Definition same_par (h h' : heap) : Prop :=
+  forall a, match findw h a, findw h' a with
+            | Some c, Some c' => w_parent c' = w_parent c
+            | None, None => True
+            | _, _ => False
+            end.
+Lemma same_par_refl : forall h, same_par h h.
+Proof. intros h a. destruct (findw h a); auto. Qed.
+Lemma same_par_trans : forall h1 h2 h3, same_par h1 h2 -> same_par h2 h3 -> same_par h1 h3.
+Proof.
+  intros h1 h2 h3 H1 H2 a. specialize (H1 a). specialize (H2 a).
+  destruct (findw h1 a), (findw h2 a), (findw h3 a); try contradiction; auto. congruence.
+Qed.
+Lemma up_path_same_par : forall h h' w l, same_par h h' -> up_path h w l -> up_path h' w l.
+Proof.
+  intros h h' w l S H. induction H as [|a c l Hf Hu IH]; [constructor|].
+  pose proof (S a) as Sa. rewrite Hf in Sa. destruct (findw h' a) as [c'|] eqn:Hf'; [|contradiction].
+  econstructor; [exact Hf'|]. rewrite Sa. exact IH.
+Qed.
+
+(* [good] without the order of the frames *)
+Definition good0 (F : list nat) (h : heap) : Prop :=
+  exists g, echeck e0 (rev (tr h)) = Some g /\ hinv [] h /\ agreeE g h /\ frames_of g F.
+
+Lemma good_good0 : forall F h, good F h -> good0 F h.
+Proof. intros F h (g & H1 & H2 & H3 & H4 & _). exists g. auto. Qed.
+
+Lemma frames_of_perm : forall g F F', frames_of g F -> (forall i, count_occ Nat.eq_dec F' i = count_occ Nat.eq_dec F i) -> frames_of g F'.
+Proof.
+  intros g F F' [Hfr Hb] Hc. split.
+  - intros i x Hn. rewrite Hc. apply Hfr. exact Hn.
+  - intros i Hi. apply Hb. apply count_pos_in. rewrite <- Hc. apply count_pos_in. exact Hi.
+Qed.
+
+Lemma good0_push : forall f F h a, good0 F h -> findw h a <> None -> forall G1 G2, F = G1 ++ G2 ->
+  match frame_run f (OFrameRef a) h with
+  | Ok _ h' => good0 (G1 ++ idx a :: G2) h' /\ same_par h h'
+  | Fault _ _ => False
+  | NoFuel => True
+  end.
+Proof.
+  intros f F h a (g & Hg & HI & AG & Hfr) Hl G1 G2 EF.
+  pose proof (run_frame_ok f (OFrameRef a) h HI eq_refl Hl) as Hrun.
+  destruct (frame_run f (OFrameRef a) h) as [u h'| |]; [|contradiction|exact I].
+  destruct Hrun as (HI' & Heff & Htr). destruct (live_some h a Hl) as [c Hc].
+  destruct (agreeE_live_cell g h HI AG a c Hc) as (x & Hx & Href & Hc0 & Hf0 & Hp).
+  pose proof (hi_ref [] h HI a c Hc (fun y => y)) as Hr1.
+  assert (Hs : exists g', estep g (OFrameRef a) = Some g').
+  { cbn [estep]. unfold ealive, eget. rewrite Hx. assert (E : (0 <? e_cnt x + e_fr x) = true) by (apply Z.ltb_lt; lia). rewrite E. eauto. }
+  destruct Hs as [g' Hs].
+  destruct (step_agreeE g h (OFrameRef a) g' HI AG (or_intror eq_refl) Hs I) as [_ Hag].
+  destruct (estep_push g a g' F Hs Hfr) as (Hfr' & _ & _).
+  split.
+  - exists g'. split; [rewrite (echeck_logged h h' _ g Hg Htr), Hs; reflexivity|]. split; [exact HI'|]. split; [apply Hag; exact Heff|].
+    eapply frames_of_perm; [exact Hfr'|]. intro i. subst F. rewrite !count_occ_app. cbn [count_occ]. rewrite !count_occ_app.
+    destruct (Nat.eq_dec (idx a) i); lia.
+  - destruct Heff as [Hnw Hx']. intro b. specialize (Hx' b).
+    destruct (findw h b), (findw h' b); auto. destruct Hx' as [E1 E2]. exact E1.
+Qed.
+
+Lemma ref_up_spec : forall fuel h w G1 G2, good0 (G1 ++ G2) h -> (forall a, w = Some a -> findw h a <> None) ->
+  match ref_up fixed fuel w h with
+  | Ok held h' => good0 (G1 ++ map idx held ++ G2) h' /\ same_par h h' /\ up_path h w held
+  | Fault _ _ => False
+  | NoFuel => True
+  end.
+Proof.
+  induction fuel as [|f IH]; intros h w G1 G2 G Hl; [exact I|]. rewrite ref_up_F.
+  destruct w as [a|]; [|cbn; split; [exact G|]; split; [apply same_par_refl|constructor]].
+  rewrite (frame_ref_inline f).
+  pose proof (good0_push f (G1 ++ G2) h a G (Hl a eq_refl) G1 G2 eq_refl) as Hp.
+  destruct (frame_run f (OFrameRef a) h) as [u h1| |]; [|contradiction|exact I]. destruct Hp as [G' S1].
+  pose proof (S1 a) as Sa. destruct (live_some h a (Hl a eq_refl)) as [c Hc]. rewrite Hc in Sa.
+  destruct (findw h1 a) as [c1|] eqn:Hc1; [|contradiction].
+  unfold bind at 1. rewrite (getw_run h1 a c1 Hc1). unfold bind at 1.
+  assert (HI1 : hinv [] h1) by (destruct G' as (g & _ & HI & _); exact HI).
+  assert (Hl1 : forall p, w_parent c1 = Some p -> findw h1 p <> None).
+  { intros p Hp. destruct (hinv_parent_live [] h1 a c1 p HI1 Hc1 Hp) as [cp Hcp]. congruence. }
+  assert (G'' : good0 ((G1 ++ [idx a]) ++ G2) h1) by (rewrite <- app_assoc; exact G').
+  specialize (IH h1 (w_parent c1) (G1 ++ [idx a]) G2 G'' Hl1).
+  destruct (ref_up fixed f (w_parent c1) h1) as [l h2| |]; [|contradiction|exact I].
+  destruct IH as (G2' & S2 & U2). cbn [ret]. split; [|split].
+  - rewrite <- app_assoc in G2'. exact G2'.
+  - eapply same_par_trans; eauto.
+  - econstructor; [exact Hc|]. rewrite <- Sa. (* the path seen in h1, transported back *)
+    clear - U2 S1. revert U2. generalize (w_parent c1). intros w U. induction U as [|b cb l Hfb Ub IHb]; [constructor|].
+    pose proof (S1 b) as Sb. rewrite Hfb in Sb. destruct (findw h b) as [cb0|] eqn:Hb0; [|contradiction].
+    econstructor; [exact Hb0|]. rewrite <- Sb. exact IHb.
+Qed.
+
+(* the order of the frames, read off the heap *)
+Definition FSh (h : heap) (F : list nat) : Prop :=
+  forall F1 i F2 c p, F = F1 ++ i :: F2 -> findw h (addr_of i) = Some c -> w_parent c = Some p -> In (idx p) F2.
+
+Lemma FS_to_heap : forall g h F, hinv [] h -> agreeE g h -> FS g F -> FSh h F.
+Proof.
+  intros g h F HI AG HF F1 i F2 c p E Hc Hp.
+  destruct (agreeE_live_cell g h HI AG _ c Hc) as (x & Hx & _ & _ & _ & Hpar). rewrite idx_addr in Hx.
+  rewrite Hp in Hpar. destruct (e_par x) as [pi|] eqn:Ep; [|discriminate]. cbn in Hpar. injection Hpar as E1.
+  subst p. rewrite idx_addr. exact (HF F1 i F2 x pi E Hx Ep).
+Qed.
+Lemma FS_of_heap : forall g h F, agreeE g h -> (forall i, In i F -> findw h (addr_of i) <> None) -> FSh h F -> FS g F.
+Proof.
+  intros g h F AG Hl HF F1 i F2 x p E Hx Ep.
+  assert (Hin : In i F) by (rewrite E; apply in_or_app; right; left; reflexivity).
+  destruct (live_some h _ (Hl i Hin)) as [c Hc].
+  pose proof (ae_cells g h AG i x Hx) as C. rewrite Hc in C. destruct C as (_ & _ & _ & Hpar). rewrite Ep in Hpar. cbn in Hpar.
+  pose proof (HF F1 i F2 c (addr_of p) E Hc (eq_sym Hpar)) as H. rewrite idx_addr in H. exact H.
+Qed.
+Lemma FSh_same_par : forall h h' F, same_par h h' -> FSh h F -> FSh h' F.
+Proof.
+  intros h h' F S HF F1 i F2 c' p E Hc' Hp. pose proof (S (addr_of i)) as Si. rewrite Hc' in Si.
+  destruct (findw h (addr_of i)) as [c|] eqn:Hc; [|contradiction]. apply (HF F1 i F2 c p E Hc). congruence.
+Qed.
+Lemma FSh_held : forall h F held w, FSh h F -> up_path h w held -> FSh h (map idx held ++ F).
+Proof.
+  intros h F held w HF U. induction U as [|a c l Hf U IH]; [exact HF|].
+  intros F1 i F2 c0 p E Hc0 Hp. cbn [map app] in E. destruct F1 as [|j F1]; cbn in E; injection E as E1 E2.
+  - subst i F2. rewrite addr_idx, Hf in Hc0. inversion Hc0; subst c0. rewrite Hp in U. inversion U as [|a' c' l' Hf' U']; subst.
+    cbn. left. reflexivity.
+  - apply (IH F1 i F2 c0 p E2 Hc0 Hp).
+Qed.
+
+Lemma good_of_good0 : forall F h, good0 F h -> FSh h F -> good F h.
+Proof.
+  intros F h (g & Hg & HI & AG & Hfr) HF. exists g. split; [exact Hg|]. split; [exact HI|]. split; [exact AG|]. split; [exact Hfr|].
+  apply (FS_of_heap g h F AG); [|exact HF]. intros i Hi.
+  destruct Hfr as [Hfr Hb]. assert (Hlt : (i < length g)%nat) by (apply Hb; exact Hi).
+  destruct (nth_error g i) as [x|] eqn:Hn; [|apply nth_error_None in Hn; lia].
+  pose proof (ae_cells g h AG i x Hn) as C. pose proof (Hfr i x Hn) as Ef.
+  assert ((0 < count_occ Nat.eq_dec F i)%nat) by (apply count_pos_in; exact Hi).
+  destruct (findw h (addr_of i)); [congruence|]. destruct C as (_ & C2 & _). lia.
+Qed.
+Lemma good_FSh : forall F h, good F h -> FSh h F.
+Proof. intros F h (g & _ & HI & AG & _ & HF). eapply FS_to_heap; eauto. Qed.
+
+Lemma unref_list_spec : forall fuel held F h, good (map idx held ++ F) h ->
+  match unref_list fixed fuel held h with Ok _ h' => good F h' | Fault _ _ => False | NoFuel => True end.
+Proof.
+  induction fuel as [|f IH]; intros held F h G; [exact I|]. rewrite unref_list_F. destruct held as [|a l]; [exact G|].
+  rewrite (frame_unref_inline f). cbn [map app] in G. pose proof (good_pop f (map idx l ++ F) h a G) as Hp.
+  destruct (frame_run f (OFrameUnref a) h) as [u h1| |]; [|contradiction|exact I]. apply IH. exact Hp.
+Qed.
+
+Lemma step_mouse_at : forall f, S_all f -> forall d t F h, good F h -> findw h d <> None ->
+  dok F ((cd <- getw d ;; count_up f (w_parent cd) ;;; cd' <- getw d ;; held <- ref_up fixed f (w_parent cd') ;;
+          handle_mouse fixed f d t true false ;;; unref_list fixed f held) h).
+Proof.
+  intros f (_ & _ & _ & _ & _ & _ & S7 & _) d t F h G Hl. destruct (live_some h d Hl) as [cd Hd].
+  assert (HI : hinv [] h) by (destruct G as (g & _ & HI & _); exact HI).
+  assert (Hlp : forall p, w_parent cd = Some p -> findw h p <> None).
+  { intros p Hp. destruct (hinv_parent_live [] h d cd p HI Hd Hp) as [cp Hcp]. congruence. }
+  unfold bind at 1. rewrite (getw_run h d cd Hd). unfold bind at 1.
+  pose proof (count_up_spec f h (w_parent cd) HI Hlp) as Hcu.
+  destruct (count_up f (w_parent cd) h) as [u h0| |]; [|contradiction|exact I]. subst h0.
+  unfold bind at 1. rewrite (getw_run h d cd Hd). unfold bind at 1.
+  pose proof (ref_up_spec f h (w_parent cd) [] F (good_good0 F h G) Hlp) as Hru.
+  destruct (ref_up fixed f (w_parent cd) h) as [held h1| |]; [|contradiction|exact I].
+  destruct Hru as (G0 & S1 & U). cbn [app] in G0.
+  assert (G1 : good (map idx held ++ F) h1).
+  { apply good_of_good0; [exact G0|]. apply (FSh_same_par h h1 _ S1). eapply FSh_held; [apply good_FSh; exact G|exact U]. }
+  assert (Hpf : parent_framed (map idx held ++ F) h1 d).
+  { pose proof (S1 d) as Sd. rewrite Hd in Sd. destruct (findw h1 d) as [cd1|] eqn:Hd1; [|contradiction].
+    exists cd1. split; [exact Hd1|]. intros p Hp. rewrite Sd in Hp. rewrite Hp in U.
+    inversion U as [|a' c' l' Hf' U']; subst. cbn. left. reflexivity. }
+  eapply (dok_bind (map idx held ++ F) F); [apply S7; assumption| |].
+  - intros _. apply (text_all f).
+  - intros r h2 _ G2. pose proof (unref_list_spec f held F h2 G2) as H. unfold dok.
+    destruct (unref_list fixed f held h2); auto; contradiction.
+Qed.
+
+Lemma text_ref_up : forall f w, text (ref_up fixed f w).
+Proof. intros. apply (text_all f). Qed.
+Lemma text_unref_list : forall f l, text (unref_list fixed f l).
+Proof. intros. apply (text_all f). Qed.
+#[local] Hint Resolve text_ref_up text_unref_list text_frame_run : core.
+
+(* a drag source gets an event directly *)
+Lemma step_direct : forall f, S_all f -> forall d t F h, good F h -> In O F -> r_drag (rx h) = Some (Some d) ->
+  dok F ((abs_geometry f d ;;; (cd <- getw d ;; count_up f (w_parent cd) ;;; cd' <- getw d ;; held <- ref_up fixed f (w_parent cd') ;;
+          handle_mouse fixed f d t true false ;;; unref_list fixed f held)) h).
+Proof.
+  intros f SA d t F h G Hin Hd. destruct (good_root_cell F h G Hin) as (c & Hc & _).
+  assert (Ha : anc h d root) by (eapply good_drag_source; eauto; congruence).
+  pose proof (anc_live_l h d root Ha) as Hl.
+  assert (HI : hinv [] h) by (destruct G as (g & _ & HI & _); exact HI).
+  unfold bind at 1. pose proof (abs_geometry_spec [] f d h (conj HI Hl)) as Hag.
+  destruct (abs_geometry f d h) as [u h0| |]; [|contradiction|exact I]. destruct Hag as [-> _].
+  apply step_mouse_at; assumption.
+Qed.
+
+Lemma step_otm : forall f, S_all f -> forall t F h, good F h -> findw h root <> None ->
   dok F (on_term_mouse fixed (S f) t h).
 Proof.
-  intros f (_ & _ & _ & _ & _ & _ & S7 & _) t F h G Hl Hnd. rewrite on_term_mouse_F. cbv zeta. cbn [v_events_asis fixed].
+  intros f SA t F h G Hl. pose proof SA as (_ & _ & _ & _ & _ & _ & S7 & _).
+  rewrite on_term_mouse_F. cbv zeta. cbn [v_events_asis fixed].
   change (log_op (OFrameRef 1%positive) ;;; window_ref 1%positive) with (frame_run f (OFrameRef root)).
   change (log_op (OFrameUnref 1%positive) ;;; unref fixed f 1%positive) with (frame_run f (OFrameUnref root)).
   change 1%positive with root.
@@ -830,74 +1097,88 @@ Proof.
   destruct (frame_run f (OFrameRef root) h) as [u h1| |]; [|contradiction|exact I].
   change (idx root) with O in Hpush. set (F' := O :: F) in *.
   assert (Hin : In O F') by (left; reflexivity).
-  assert (Hin' : In (idx root) F') by (left; reflexivity).
   destruct (good_root_cell F' h1 Hpush Hin) as (c1 & Hc1 & Hr1).
   unfold bind at 1. rewrite (getr_run h1 root c1 Hc1 Hr1).
-  (* what remains after the part that depends on the event type *)
-  assert (Hrest : forall h2, good F' h2 ->
-            dok F ((handled <- handle_mouse fixed f root t true false ;;
-                    (match t with
-                     | MDrag =>
-                       r2 <- getr root ;;
-                       match r_drag r2 with
-                       | Some (Some d) =>
-                         if negb (ptr_eqb handled (Some d))
-                         then abs_geometry f d ;;; (cd <- getw d ;; count_up f (w_parent cd) ;;; cd' <- getw d ;;
-                              held <- ref_up fixed f (w_parent cd') ;; handle_mouse fixed f d MDragOutside true false ;;; unref_list fixed f held)
-                         else ret tt
-                       | _ => ret tt
-                       end
-                     | _ => ret tt
-                     end) ;;; frame_run f (OFrameUnref root)) h2)).
-  { intros h2 G2. destruct (good_root_cell F' h2 G2 Hin) as (c2 & Hc2 & _).
+  (* the event itself, then what follows a drag, then the frame's release *)
+  set (tail := (handled <- handle_mouse fixed f root t true false ;;
+                (match t with
+                 | MDrag =>
+                   r2 <- getr root ;;
+                   match r_drag r2 with
+                   | Some (Some d) =>
+                     if negb (ptr_eqb handled (Some d))
+                     then abs_geometry f d ;;; (cd <- getw d ;; count_up f (w_parent cd) ;;; cd' <- getw d ;;
+                          held <- ref_up fixed f (w_parent cd') ;; handle_mouse fixed f d MDragOutside true false ;;; unref_list fixed f held)
+                     else ret tt
+                   | _ => ret tt
+                   end
+                 | _ => ret tt
+                 end) ;;; frame_run f (OFrameUnref root))).
+  assert (Ttail : text tail).
+  { unfold tail. apply text_bind; [auto|]. intro r. apply text_bind; [|intros _; auto]. destruct t; text_auto. }
+  assert (Hpop : forall h3, good F' h3 -> dok F (frame_run f (OFrameUnref root) h3)).
+  { intros h3 G3. pose proof (good_pop f F h3 root G3) as H. unfold dok. destruct (frame_run f (OFrameUnref root) h3); auto; contradiction. }
+  assert (Htail : forall h2, good F' h2 -> dok F (tail h2)).
+  { intros h2 G2. destruct (good_root_cell F' h2 G2 Hin) as (c2 & Hc2 & _). unfold tail.
     eapply (dok_bind F' F).
     - apply S7; [exact G2|]. apply good_root_framed; [exact G2|congruence].
-    - intros r. destruct t; try congruence; (apply text_bind; [apply text_ret|]; intros _; apply text_frame_run).
-    - intros handled h3 _ G3.
-      assert (Hpop : dok F (frame_run f (OFrameUnref root) h3)).
-      { pose proof (good_pop f F h3 root G3) as H. unfold dok. destruct (frame_run f (OFrameUnref root) h3); auto; contradiction. }
-      destruct t; try congruence; unfold bind at 1; cbn [ret]; exact Hpop. }
-  assert (Hmid : forall (m : M unit), text m -> dok F' (m h1) ->
-            dok F ((m ;;; handled <- handle_mouse fixed f root t true false ;;
-                    (match t with
-                     | MDrag =>
-                       r2 <- getr root ;;
-                       match r_drag r2 with
-                       | Some (Some d) =>
-                         if negb (ptr_eqb handled (Some d))
-                         then abs_geometry f d ;;; (cd <- getw d ;; count_up f (w_parent cd) ;;; cd' <- getw d ;;
-                              held <- ref_up fixed f (w_parent cd') ;; handle_mouse fixed f d MDragOutside true false ;;; unref_list fixed f held)
-                         else ret tt
-                       | _ => ret tt
-                       end
-                     | _ => ret tt
-                     end) ;;; frame_run f (OFrameUnref root)) h1)).
-  { intros m Tm Hm. eapply (dok_bind F' F); [exact Hm| |].
-    - intros _. apply text_bind; [auto|]. intros r. destruct t; try congruence; (apply text_bind; [apply text_ret|]; intros _; apply text_frame_run).
-    - intros _ h2 _ G2. apply Hrest. exact G2. }
-  destruct t; try congruence.
+    - intro r. apply text_bind; [|intros _; auto]. destruct t; text_auto.
+    - intros handled h3 _ G3. destruct (good_root_cell F' h3 G3 Hin) as (c3 & Hc3 & Hr3).
+      destruct t; try (unfold bind at 1; cbn [ret]; apply Hpop; exact G3).
+      (* a drag: the source, unless it handled the event itself, is told DRAG_OUTSIDE *)
+      eapply (dok_bind F' F); [|intros _; auto|intros _ h4 _ G4; apply Hpop; exact G4].
+      unfold bind at 1. rewrite (getr_run h3 root c3 Hc3 Hr3).
+      destruct (r_drag (rx h3)) as [[d|]|] eqn:Hd; try (apply dok_ret; exact G3).
+      destruct (negb (ptr_eqb handled (Some d))); [|apply dok_ret; exact G3].
+      apply step_direct; assumption. }
+  assert (Hmid : forall (m : M unit), text m -> dok F' (m h1) -> dok F ((m ;;; tail) h1)).
+  { intros m Tm Hm. eapply (dok_bind F' F); [exact Hm|intros _; exact Ttail|]. intros _ h2 _ G2. apply Htail. exact G2. }
+  destruct t.
   - (* press *)
     apply Hmid; [apply ktr_text; auto with ktr|]. rewrite (setr_run h1 root c1 _ Hc1 Hr1). right.
     apply good_rx; [exact Hpush|reflexivity|reflexivity].
+  - (* drag *)
+    destruct (r_dragging (rx h1)); [apply Hmid; [apply text_ret|apply dok_ret; exact Hpush]|].
+    apply Hmid.
+    + text_auto.
+    + eapply (dok_bind F' F').
+      * apply S7; [exact Hpush|]. apply good_root_framed; [exact Hpush|congruence].
+      * intro src. text_auto.
+      * intros src h2 _ G2. destruct (good_root_cell F' h2 G2 Hin) as (c2 & Hc2 & Hr2).
+        assert (HI2 : hinv [] h2) by (destruct G2 as (g & _ & HI & _); exact HI).
+        (* the source is kept only if it is still in the tree *)
+        assert (Hsrc : forall src', (forall s, src' = Some s -> anc h2 s root) ->
+                  dok F' ((updr root (fun r => set_rdrag r (Some src')) ;;; updr root (fun r => set_rdragging r true)) h2)).
+        { intros src' Hs. unfold bind at 1. rewrite (updr_run h2 root c2 _ Hc2 Hr2).
+          set (h3 := with_rx h2 (set_rdrag (rx h2) (Some src'))).
+          assert (G3 : good F' h3).
+          { apply good_rx_drag; [exact G2|reflexivity|]. exists src'. split; [reflexivity|exact Hs]. }
+          assert (Hc3 : findw h3 root = Some c2) by exact Hc2.
+          rewrite (updr_run h3 root c2 _ Hc3 Hr2). right. apply good_rx; [exact G3|reflexivity|reflexivity]. }
+        destruct src as [s|].
+        -- unfold bind at 1. unfold bind at 1.
+           assert (Hlr : findw h2 root <> None) by congruence.
+           destruct (in_tree_both f h2 HI2) as [Hit _]. specialize (Hit root s Hlr).
+           destruct (in_tree f root s h2) as [b h3| |]; [|contradiction|exact I]. destruct Hit as [-> Hb]. cbn [ret].
+           apply Hsrc. intros s0 Es. destruct b; [inversion Es; subst s0; apply Hb; reflexivity|discriminate].
+        -- unfold bind at 1. cbn [ret]. apply Hsrc. intros s0 Es. discriminate.
   - (* release *)
-    destruct (r_dragging (rx h1)).
-    + apply Hmid.
-      * apply text_bind; [auto|]. intros _. apply text_bind; [apply ktr_text; auto with ktr|]. intros r1.
-        apply text_bind; [|intros _; apply ktr_text; auto with ktr].
-        destruct (r_drag r1) as [[d|]|]; [|apply text_ret|apply ktr_text; auto with ktr].
-        apply text_bind; [apply ktr_text; auto with ktr|]. intros _. text_auto; apply (text_all f).
-      * eapply (dok_bind F' F').
-        -- apply S7; [exact Hpush|]. apply good_root_framed; [exact Hpush|congruence].
-        -- intros _. apply text_bind; [apply ktr_text; auto with ktr|]. intros r1.
-           apply text_bind; [|intros _; apply ktr_text; auto with ktr].
-           destruct (r_drag r1) as [[d|]|]; [|apply text_ret|apply ktr_text; auto with ktr].
-           apply text_bind; [apply ktr_text; auto with ktr|]. intros _. text_auto; apply (text_all f).
-        -- intros _ h2 _ G2. destruct (good_root_cell F' h2 G2 Hin) as (c2 & Hc2 & Hr2).
-           unfold bind at 1. rewrite (getr_run h2 root c2 Hc2 Hr2).
-           assert (Hd : r_drag (rx h2) = Some None) by (destruct G2 as (g & _ & HI & _); exact (hi_drag [] h2 HI)).
-           rewrite Hd. unfold bind at 1. cbn [ret]. rewrite (updr_run h2 root c2 _ Hc2 Hr2). right.
-           apply good_rx; [exact G2|reflexivity|reflexivity].
-    + apply Hmid; [apply text_ret|]. apply dok_ret. exact Hpush.
+    destruct (r_dragging (rx h1)); [|apply Hmid; [apply text_ret|apply dok_ret; exact Hpush]].
+    apply Hmid.
+    + text_auto.
+    + eapply (dok_bind F' F').
+      * apply S7; [exact Hpush|]. apply good_root_framed; [exact Hpush|congruence].
+      * intros _. text_auto.
+      * intros _ h2 _ G2. destruct (good_root_cell F' h2 G2 Hin) as (c2 & Hc2 & Hr2).
+        unfold bind at 1. rewrite (getr_run h2 root c2 Hc2 Hr2).
+        eapply (dok_bind F' F').
+        -- destruct (r_drag (rx h2)) as [[d|]|] eqn:Hd.
+           ++ apply step_direct; assumption.
+           ++ apply dok_ret. exact G2.
+           ++ unfold note_uninit. right. apply good_uninit. exact G2.
+        -- intros _. apply ktr_text. auto with ktr.
+        -- intros _ h3 _ G3. destruct (good_root_cell F' h3 G3 Hin) as (c3 & Hc3 & Hr3).
+           rewrite (updr_run h3 root c3 _ Hc3 Hr3). right. apply good_rx; [exact G3|reflexivity|reflexivity].
   - apply Hmid; [apply text_ret|]. apply dok_ret. exact Hpush.
   - apply Hmid; [apply text_ret|]. apply dok_ret. exact Hpush.
   - apply Hmid; [apply text_ret|]. apply dok_ret. exact Hpush.
@@ -986,4 +1267,16 @@ Definition ev_demo : list op :=
 Lemma events_nonvacuous : exists h,
   run_script fixed 80 ev_demo = VOk h /\ wf_trace (tr h) = true /\ heap_empty h = true /\
   (6 <= length (filter (fun o => match o with OFrameRef _ => true | _ => false end) (tr h)))%nat.
+Proof. vm_compute. eexists. split; [reflexivity|]. split; [reflexivity|]. split; [reflexivity|]. lia. Qed.
+
+(* ... and the drag state machine: the window that accepted DRAG_START becomes the drag source; on release it is told
+   DRAG_STOP directly, with all its ancestors held; its handler drops the last client references to its own window and
+   to its parent (the history on which the library faulted before fixes/C08-6) *)
+Definition drag_demo : list op :=
+  [ONew 1 false false false false; ONew 2 false false false false;
+   OBind 3 0 false 16 true []; OBind 3 1 false 128 false [OUnref 3; OUnref 2]; OBind 3 2 false 32 false [OShow 3];
+   OMouse MPress; OMouse MDrag; OMouse MDrag; OMouse MRelease; OFlush 1; OUnref 1].
+Lemma drag_nonvacuous : exists h,
+  run_script fixed 80 drag_demo = VOk h /\ wf_trace (tr h) = true /\ heap_empty h = true /\
+  (10 <= length (filter (fun o => match o with OFrameRef _ => true | _ => false end) (tr h)))%nat.
 Proof. vm_compute. eexists. split; [reflexivity|]. split; [reflexivity|]. split; [reflexivity|]. lia. Qed.
